@@ -694,9 +694,9 @@ def search_views(ctx: Ctx) -> SearchResult:
 	rng = ctx.sub_rng('views')
 	res = SearchResult('fresh vs restored EntryOfLark views, field by field (EntryStored.save→load)')
 	app = common.MemApp(ctx.tmpdir())
-	trees_: list[tuple[str, Any]] = parse_all(app, gen_sources(ctx, rng, ctx.scale(150, 2500), ctx.scale(6, 80)))
+	trees_: list[tuple[str, Any]] = parse_all(app, gen_sources(ctx, rng, ctx.scale(110, 2500), ctx.scale(6, 80)))
 	hist: dict[str, int] = {}
-	for i in range(ctx.scale(600, 8000)):
+	for i in range(ctx.scale(500, 8000)):
 		trees_.append((f'random#{i}', gen_lark(rng, 1 + i % 5, 1 + i % 5, False, hist)))
 	seen = set()
 	for label, t in diskproj.bounded(trees_, *diskproj.budgets(ctx), label=lambda x: x[0]):
@@ -736,8 +736,8 @@ def search_truncation(ctx: Ctx) -> SearchResult:
 	res = SearchResult('every proper prefix of the bytes EntryStored.save writes is rejected by EntryStored.load')
 	hist: dict[str, int] = {}
 	app = common.MemApp(ctx.tmpdir())
-	trees_: list[tuple[str, Any]] = parse_all(app, gen_sources(ctx, rng, ctx.scale(20, 300), ctx.scale(2, 20)))
-	trees_ += [(f'random#{i}', gen_lark(rng, 1 + i % 4, 1 + i % 4, False, hist)) for i in range(ctx.scale(150, 2000))]
+	trees_: list[tuple[str, Any]] = parse_all(app, gen_sources(ctx, rng, ctx.scale(14, 300), ctx.scale(2, 20)))
+	trees_ += [(f'random#{i}', gen_lark(rng, 1 + i % 4, 1 + i % 4, False, hist)) for i in range(ctx.scale(120, 2000))]
 	seen = set()
 	for label, t in diskproj.bounded(trees_, *diskproj.budgets(ctx), label=lambda x: x[0]):
 		buf = io.BytesIO()
@@ -794,7 +794,7 @@ def search_nodes(ctx: Ctx) -> SearchResult:
 	res = SearchResult('nodes(fresh) vs nodes(restored from the on-disk cache): paths, classes, tokens, spans, ids, values')
 	proj = diskproj.DiskProject(os.path.join(ctx.tmpdir(), 'proj'), ctx.tmpdir())
 	modules: list[tuple[str, str]] = []
-	for i in range(ctx.scale(25, 300)):
+	for i in range(ctx.scale(20, 300)):
 		src, d = pygen.gen_module(rng, n_statements=rng.randint(1, 5))
 		mp = f'gen.m{i}'
 		label = f"generated#{i}:{d['unit']}"
